@@ -443,6 +443,14 @@ pub fn run(tier: &str) -> Run {
         layout_cases(&g, d, &mut cases);
     }
     c01::ifdata_gap_cases(true, false, &mut cases);
+    // every value class at every scalar parameter: the written form of a value (escapes, number notation) must not
+    // move anything to another line
+    for d in &carriers {
+        let mut vc = Vec::new();
+        c01::value_cases(d, if thorough { 2 } else { 1 }, &mut vc);
+        // (strings with raw line breaks are outside the scope of the property)
+        cases.extend(vc.into_iter().filter(|c| !c.class.contains("raw-lf") && !c.class.contains("raw-cr")));
+    }
     let pair_tags: &[&str] = if thorough { &["MEASUREMENT", "ANNOTATION_TEXT", "A2ML", "IF_DATA", "FNC_VALUES", "VAR_CRITERION", "HEADER", "COMPU_VTAB", "MEMORY_SEGMENT", "FUNCTION_LIST", "FORMULA", "SYMBOL_LINK"] } else { &["ANNOTATION_TEXT", "FORMULA"] };
     for t in pair_tags {
         if let Some(d) = carriers.iter().find(|c| c.label == format!("carrier({t})")) {
@@ -524,10 +532,11 @@ pub fn run(tier: &str) -> Run {
     run.require("ws: lines preserved", 1000);
     run.require("cm: lines preserved", 500);
     run.require("ifdata-ws: lines preserved", 300);
+    run.require("val: lines preserved", 1000);
     run.require("edit EditStr: local", 50);
     run.require("edit Remove: local", 50);
     run.require("edit Push: local", 30);
-    run.rule = "(i)+(ii): every carrier and rich document x 7 whitespace shapes at every gap allowed by the scope (/begin,/end on the line of their tag; A2ML /end on its own line) x 7 comment shapes at every block-level gap, CRLF, all pairs on selected documents; 10 IF_DATA payloads (interpreted through an in-file A2ML definition and uninterpreted: nested blocks, hex, floats, wide integers, strings) written on one line and one token per line x 7 whitespace shapes at every gap between payload tokens; oracle: same significant tokens on the same line numbers (reference tokenizer on both texts) and write(load(output)) == output. (iii): per module-level list kind a 3-element document in 3 layouts x {edit string field, edit numeric field, remove first/middle/last, push a builder-made element with/without sort_new_items}; oracle: new text == old text with exactly the object's lines (incl. its leading blank lines) changed/removed/inserted.".into();
+    run.rule = "(i)+(ii): every carrier and rich document x 7 whitespace shapes at every gap allowed by the scope (/begin,/end on the line of their tag; A2ML /end on its own line) x 7 comment shapes at every block-level gap, CRLF, all pairs on selected documents; 10 IF_DATA payloads (interpreted through an in-file A2ML definition and uninterpreted: nested blocks, hex, floats, wide integers, strings) written on one line and one token per line x 7 whitespace shapes at every gap between payload tokens; every value class (integers, floats, strings over the escape units, identifiers) at every scalar parameter of every carrier; oracle: same significant tokens on the same line numbers (reference tokenizer on both texts) and write(load(output)) == output. (iii): per module-level list kind a 3-element document in 3 layouts x {edit string field, edit numeric field, remove first/middle/last, push a builder-made element with/without sort_new_items}; oracle: new text == old text with exactly the object's lines (incl. its leading blank lines) changed/removed/inserted.".into();
     run.assumptions = vec!["scope as in the quantifier (canonical element order, include-free, no raw line breaks in strings)".into()];
     run
 }
